@@ -441,7 +441,133 @@ def run(ctx, rep):
                 tgt = n.value.id
             if tgt and tgt in containers and tgt not in local:
                 rep.violation("C16.8", construct_of(f, f"module-state:{tgt}"), f"the module-level container `{tgt}` is mutated by a function reachable from the entry points: later calls see what earlier calls left behind", f"{f.path}:{n.lineno}")
+    # class-level mutable containers mutated through self and never rebound per instance
+    for c in ix.classes.values():
+        if c.module.startswith("jaqalpaq._cli"):
+            continue
+        for attr, val in c.class_attrs.items():
+            if not isinstance(val, (ast.List, ast.Dict, ast.Set)) and not (isinstance(val, ast.Call) and isinstance(val.func, ast.Name) and val.func.id in ("list", "dict", "set", "deque", "defaultdict", "OrderedDict")):
+                continue
+            fam = [c.qualname] + ix.subclasses(c.qualname)
+            rebound = any(any(fi.name == "__init__" for fi, v in ix.classes[k].self_attrs.get(attr, [])) for k in ix.mro(c.qualname) + ix.subclasses(c.qualname))
+            mutated = None
+            for k in fam:
+                for lst in ix.classes[k].methods_all.values():
+                    for fi in lst:
+                        if not fi.params:
+                            continue
+                        s0 = fi.params[0]
+                        for n in walk_no_nested(fi.node):
+                            tgt = None
+                            if isinstance(n, ast.Call) and isinstance(n.func, ast.Attribute) and n.func.attr in ("append", "extend", "update", "add", "pop", "clear", "insert", "setdefault", "remove"):
+                                tgt = n.func.value
+                            elif isinstance(n, ast.Subscript) and isinstance(n.ctx, (ast.Store, ast.Del)):
+                                tgt = n.value
+                            if isinstance(tgt, ast.Attribute) and tgt.attr == attr and isinstance(tgt.value, ast.Name) and tgt.value.id == s0:
+                                mutated = (fi, n)
+            if mutated and not rebound:
+                fi, n = mutated
+                rep.violation("C16.8", cls_construct(ix, c.qualname, f"class-state:{attr}"), f"`{attr}` is a mutable class attribute that {construct_of(fi)} mutates through self and no __init__ rebinds: every instance (every later call in the process) shares and keeps extending it", f"{fi.path}:{n.lineno}")
+            elif mutated:
+                rep.ok("C16.8", cls_construct(ix, c.qualname, f"class-state:{attr}"), "rebound per instance in __init__", c.loc())
+    # tables loaded from an imported module are read-only afterwards
+    for c in ix.classes.values():
+        for attr, lst in c.self_attrs.items():
+            loaders = [fi for fi, v in lst if isinstance(v, ast.Call) and (ix.resolve_expr(c.module, v.func, fi) or ("", ""))[0] == "func" and "import" in (ix.resolve_expr(c.module, v.func, fi) or ("", ""))[1]]
+            if not loaders:
+                continue
+            for mlst in c.methods_all.values():
+                for fi in mlst:
+                    if fi in loaders or not fi.params:
+                        continue
+                    s0 = fi.params[0]
+
+                    def is_src(n, s0=s0, attr=attr):
+                        return isinstance(n, ast.Attribute) and n.attr == attr and isinstance(n.value, ast.Name) and n.value.id == s0 and isinstance(n.ctx, ast.Load)
+
+                    aliases = set()
+                    for n in walk_no_nested(fi.node):
+                        if isinstance(n, ast.Assign) and is_src(n.value):
+                            aliases |= {t.id for t in n.targets if isinstance(t, ast.Name)}
+                    for n in walk_no_nested(fi.node):
+                        tgt = None
+                        if isinstance(n, ast.Call) and isinstance(n.func, ast.Attribute) and n.func.attr in ("pop", "clear", "update", "setdefault", "popitem", "append", "remove", "__setitem__", "__delitem__"):
+                            tgt = n.func.value
+                        elif isinstance(n, ast.Subscript) and isinstance(n.ctx, (ast.Store, ast.Del)):
+                            tgt = n.value
+                        if tgt is not None and (is_src(tgt) or (isinstance(tgt, ast.Name) and tgt.id in aliases)):
+                            rep.violation("C16.8", construct_of(fi, f"mutates-loaded:{attr}"), f"`{ast.unparse(n)[:60]}` mutates self.{attr}, the table loaded from an imported module (the module's own object): the change persists for every later call in the process", f"{fi.path}:{n.lineno}")
     rep.ok("C16.8", "package:init-decorators", f"checked {sum(1 for f in ix.functions.values() if f.name == '__init__')} __init__ methods and {n_checked} mutable defaults")
+
+
+    # ------------------------------------------------------------ C16.9
+    rep.rule("C16.9", "no lexer pattern has an exponentially ambiguous repetition (catastrophic backtracking on malformed input)", floor=3)
+    import re._parser as sre_parse
+    import re._constants as sre_c
+    from ..regex import NFA, Features, DFA, _build, Unsupported
+
+    def lang_of(items):
+        nfa = NFA()
+        feats = Features()
+        end = _build(nfa, list(items), nfa.start, feats)
+        nfa.accept = {end}
+        return DFA.from_nfa(nfa)
+
+    def repeats(items, acc):
+        for op, arg in items:
+            if op in (sre_c.MAX_REPEAT, sre_c.MIN_REPEAT):
+                lo, hi, p = arg
+                if hi is sre_c.MAXREPEAT or (isinstance(hi, int) and hi > 8):
+                    acc.append(list(p))
+                repeats(p, acc)
+            elif op is sre_c.SUBPATTERN:
+                repeats(arg[3], acc)
+            elif op is sre_c.BRANCH:
+                for alt in arg[1]:
+                    repeats(alt, acc)
+        return acc
+
+    lxm = extract_lexer(ix)
+    for r in lxm.rules:
+        cons = cls_construct(ix, lxm.cls.qualname, f"{'ignore_' if r.ignored else ''}{r.name}:repetition")
+        loc = f"{lxm.cls.path}:{r.lineno}"
+        try:
+            parsed = sre_parse.parse(r.pattern)
+            bad = None
+            for body in repeats(list(parsed), []):
+                one = lang_of(body)
+                star = [(sre_c.MAX_REPEAT, (1, sre_c.MAXREPEAT, body))]
+                two_plus = lang_of(list(body) + star)
+                w = one.intersect(two_plus).shortest()
+                if w is not None and w != "":
+                    bad = (body, w)
+                    break
+            if bad:
+                rep.violation("C16.9", cons, f"in {r.pattern!r} a repeated group can match {bad[1]!r} both as one iteration and as several: on input that does not complete the token (e.g. an unterminated comment) Python's backtracking matcher tries exponentially many splits and the call does not return", loc, witness=bad[1])
+            else:
+                rep.ok("C16.9", cons, "every unbounded repetition is iteration-unambiguous", loc)
+        except Unsupported as ex:
+            rep.undecided("C16.9", cons, str(ex), loc)
+
+    # ------------------------------------------------------------ C16.10
+    rep.rule("C16.10", "a raising emptiness guard is not followed by a reassignment that can empty the validated value", floor=0)
+    for q in ea.reachable:
+        f = ix.functions[q]
+        if isinstance(f.node, ast.Lambda):
+            continue
+        for stmts in _stmt_lists_of(f.node):
+            for i, st in enumerate(stmts):
+                if not (isinstance(st, ast.If) and isinstance(st.test, ast.UnaryOp) and isinstance(st.test.op, ast.Not) and isinstance(st.test.operand, ast.Name) and st.body and isinstance(st.body[-1], ast.Raise)):
+                    continue
+                var = st.test.operand.id
+                before = any(isinstance(x, ast.Assign) and any(isinstance(t, ast.Name) and t.id == var for t in x.targets) and _shrinks(x.value, var) for s2 in stmts[:i] for x in ast.walk(s2))
+                after = [x for s2 in stmts[i + 1:] for x in ast.walk(s2) if isinstance(x, ast.Assign) and any(isinstance(t, ast.Name) and t.id == var for t in x.targets) and _shrinks(x.value, var)]
+                reguarded = any(isinstance(s2, ast.If) and isinstance(s2.test, ast.UnaryOp) and isinstance(s2.test.op, ast.Not) and isinstance(s2.test.operand, ast.Name) and s2.test.operand.id == var for s2 in stmts[i + 1:])
+                cons = construct_of(f, f"emptiness-guard:{var}")
+                if after and not reguarded:
+                    rep.violation("C16.10", cons, f"`if not {var}: raise` validates `{var}` before `{ast.unparse(after[0])}` shortens it: the value used afterwards can be empty although the guard passed (e.g. the module name `.`), and the failure surfaces later as a different exception type", f"{f.path}:{after[0].lineno}")
+                else:
+                    rep.ok("C16.10", cons, "the guard follows every shortening of the value", f"{f.path}:{st.lineno}")
 
 
 KNOWN_SUBMODULES = {
@@ -449,3 +575,32 @@ KNOWN_SUBMODULES = {
     ("os", "path"), ("xml", "etree"), ("concurrent", "futures"), ("urllib", "parse"), ("urllib", "request"),
     ("logging", "handlers"), ("email", "utils"), ("collections", "abc"), ("unittest", "mock"), ("sly", "yacc"), ("sly", "lex"),
 }
+
+
+def _shrinks(value, var) -> bool:
+    """value is derived from var by slicing / stripping (can be empty when var is not)."""
+    for n in ast.walk(value):
+        if isinstance(n, ast.Subscript) and isinstance(n.slice, ast.Slice) and isinstance(n.value, ast.Name) and n.value.id == var:
+            return True
+        if isinstance(n, ast.Call) and isinstance(n.func, ast.Attribute) and n.func.attr in ("strip", "lstrip", "rstrip", "replace", "removeprefix", "removesuffix") and isinstance(n.func.value, ast.Name) and n.func.value.id == var:
+            return True
+    return False
+
+
+def _stmt_lists_of(fn):
+    out = []
+
+    def rec(stmts):
+        out.append(stmts)
+        for st in stmts:
+            if isinstance(st, (ast.FunctionDef, ast.ClassDef)):
+                continue
+            for fld in ("body", "orelse", "finalbody"):
+                sub = getattr(st, fld, None)
+                if sub:
+                    rec(sub)
+            for h in getattr(st, "handlers", []) or []:
+                rec(h.body)
+
+    rec(fn.body)
+    return out
